@@ -157,7 +157,7 @@ def gen_route(rng, net, canonical=False):
         d = {"op": "contract", "ta": a, "tb": b, "bonds": bonds, "out": f"X{k}"}
         if not canonical:
             d["mode"] = rng.choice(["auto", "fused", "blockwise"])
-            if rng.random() < 0.2:
+            if rng.random() < 0.3:
                 d["style"] = "matmul_if_possible"
         k += 1
         out.append(d)
@@ -240,9 +240,10 @@ def run_route(values, legs, decisions, stats=None, audit_cb=None, derived=None):
             kw = {}
             if "mode" in d:
                 kw["mode"] = d["mode"]
-            if (d.get("style") == "matmul_if_possible" and A.ndim <= 2 and B.ndim <= 2
+            if (d.get("style") == "matmul_if_possible" and 1 <= A.ndim <= 2 and 1 <= B.ndim <= 2
                     and len(bonds) == 1 and ax_a == [A.ndim - 1] and ax_b == [0]
-                    and A.ndim + B.ndim > 2):
+                    and (A.ndim + B.ndim > 2 or len(cur) == 2)):
+                # (vector @ vector gives a plain number: only as the last step)
                 C = A @ B
                 if stats is not None:
                     stats["route.matmul"] += 1
